@@ -223,6 +223,47 @@ def gen_history(rng):
     return {"A": rows, "b": rhs, "c": c, "ints": list(range(1, n + 1)), "cv": 0, "ub": [1] * n, "configs": cfgs, "floats": False, "variants": variants}
 
 
+def gen_switch(rng):
+    """the origin is feasible with objective exactly 0, gains need a 'switch' variable that costs something: x_j <= U*y, minimise
+    y-cost minus gains (and the mirrored maximisation) - branching on the switch yields an integral node of objective 0 while a
+    sibling still holds strictly better points"""
+    k = rng.randint(1, 2)
+    n = k + 1                       # variable 1 is the switch y, the others are the gated x_j
+    U = rng.randint(1, 3)
+    rows, rhs = [], []
+    for j in range(1, n):
+        row = [0] * n
+        row[0], row[j] = -rng.randint(U, U + 2), 1         # x_j - M*y <= 0
+        rows.append(row)
+        rhs.append(0)
+        row = [0] * n
+        row[j] = 1
+        rows.append(row)
+        rhs.append(U)
+    row = [0] * n
+    row[0] = 1
+    rows.append(row)
+    rhs.append(1)
+    c = [rng.randint(0, 2)] + [-rng.randint(1, 3) for _ in range(k)]
+    order = list(range(len(rows)))
+    rng.shuffle(order)
+    A = [rows[i] for i in order]
+    b = [rhs[i] for i in order]
+    cv = rng.choice([0, 0, rng.randint(2, n)])
+    ints = [j for j in range(1, n + 1) if j != cv]
+    configs = []
+    for heur in (True, False):
+        configs.append({"minimize": True, "heuristics": heur})
+        configs.append({"minimize": True, "heuristics": heur, "warm": [0.5] * n})
+        configs.append({"minimize": True, "heuristics": heur, "lns_iterations": 3, "seed": 1})
+    case = {"A": A, "b": b, "c": c, "ints": ints, "cv": cv, "ub": [1] + [U] * k, "configs": configs, "floats": rng.random() < 0.5}
+    if rng.random() < 0.5:          # the mirror image: maximise the negated objective
+        case["c"] = [-v for v in c]
+        for cfg in configs:
+            cfg["minimize"] = False
+    return case
+
+
 def gen_pairrows(rng):
     """binaries with explicit x_j <= 1 rows (so bounds are tightened and up-branches FIX variables at 1), rows that involve only
     two of the integer variables with a fractional LP optimum, and at least one more variable that stays free meanwhile"""
